@@ -1,4 +1,5 @@
 pub mod c0607;
+pub mod c09;
 pub mod c12;
 pub mod gds;
 pub mod c13;
@@ -15,6 +16,7 @@ pub fn gen(prop: &str, thorough: bool, seed: u64, out: &mut Vec<String>) {
         "C10" => gds::gen_c10(thorough, &mut rng, out),
         "C06" => c0607::gen_c06(thorough, &mut rng, out),
         "C07" => c0607::gen_c07(thorough, &mut rng, out),
+        "C09" => c09::gen(thorough, &mut rng, out),
         "C12" => c12::gen(thorough, &mut rng, out),
         "C13" => c13::gen(thorough, &mut rng, out),
         "C14" => c14::gen(thorough, &mut rng, out),
@@ -32,6 +34,7 @@ pub fn oracle(prop: &str, line: &str) -> String {
         "C10" => gds::oracle_c10(line),
         "C06" => c0607::oracle_c06(line),
         "C07" => c0607::oracle_c07(line),
+        "C09" => c09::oracle(line),
         "C12" => c12::oracle(line),
         "C13" => c13::oracle(line),
         "C14" => c14::oracle(line),
@@ -46,6 +49,7 @@ pub fn tag(prop: &str, line: &str) -> String {
     match prop {
         "C01" | "C02" | "C03" | "C10" => gds::tag(line),
         "C06" | "C07" => c0607::tag(line),
+        "C09" => c09::tag(line),
         "C12" => c12::tag(line),
         "C13" => c13::tag(line),
         "C14" => c14::tag(line),
